@@ -60,6 +60,10 @@ func c14List(k *h.Case, g *spec.Gen, movement bool, maxLen, depth int, allowBig 
 			}
 		} else {
 			e.Name = []string{"ITEM_POTION", "ITEM_POKE_BALL", "ITEM_RARE_CANDY", "ITEM_LEMONADE", "ITEM_X", "ITEM_Ü"}[r.IntN(6)]
+			if r.IntN(6) == 0 {
+				// names of other families and near-misses of the terminator: ordinary items wherever they stand
+				e.Name = []string{"DECOR_PIKA_CUSHION", "DECOR_NONE", "DECOR_TV", "ITEM_NONE_2", "item_none", "NONE", "TM01", "ITEM_NONEX", "MART_END"}[r.IntN(9)]
+			}
 			if r.IntN(9) == 0 {
 				e.Name = "ITEM_NONE"
 			}
